@@ -1,5 +1,8 @@
 import StunVerif.Props.C16
+import StunVerif.Props.C16Resp
 #print axioms StunVerif.C16.police_eq_spec
 #print axioms StunVerif.C16.unknown_list_bounds
 #print axioms StunVerif.C16.resp_attrs
 #print axioms StunVerif.C16.comprehension_iff
+#print axioms StunVerif.C16.unknown_resp_shape
+#print axioms StunVerif.C16.bad_resp_shape
